@@ -34,7 +34,19 @@ Domain (one case = one fresh session):
           right before the loss trigger for any call (combined with the losses that end the connection at the socket
           or locally: peer-close, link-eof, link-error, local-close - after a DISCONNECT / garbage the puppet keeps
           its socket open, and a transport thread that still has to write to a peer that neither reads nor hangs up
-          would not be a lost connection). Link only (a full pipe into a ProxyCommand child is not modelled)
+          would not be a lost connection). link-error is a connection that died with an error (RST, unreachable ...):
+          as on a kernel socket that ends BOTH directions, so with tx="full" the error is also what a sender waiting
+          on the full direction and every later send() gets (net.Direction.set_send_error) instead of timing out for
+          ever. link-eof + tx="full" is "the peer half-closed and stopped reading": the peer is still there, a send
+          may legitimately block, and the tested side learns of the end only by READING. Hence a domain restriction:
+          start_client-banner, whose transport thread WRITES (the banner, in Packetizer.write_all, which by design
+          retries socket.timeout until the packetizer is closed) before it ever reads, is combined with link-eof +
+          tx="full" only in call-first order (banner already out, thread parked in the read when the loss happens);
+          issued after / together with such a half-close the thread blocks in a send to a peer that has not hung up -
+          not a lost connection in the sense of the statement. (The other losses of the tx="full" set end the send
+          direction as well - peer-close: broken pipe, link-error: the error - and stay in the domain in every moment;
+          every other call has the transport thread parked in a read at the loss, and Packetizer.close() needs no lock
+          a stalled writer holds.) Link only (a full pipe into a ProxyCommand child is not modelled)
   timeout None, or 5 s where the API has a timeout knob (settimeout / timeout= / auth_timeout)
   moment  call-first (the call is verifiably blocked, then the loss happens), loss-first (the loss
           happened and the transport noticed it, then the call is issued), together (call and
@@ -86,7 +98,10 @@ RULE = (
     "drawn in the other moments; thorough: x every loss x moment); "
     "x state of the tested side's send direction at the loss {ok, full = the peer stopped reading, the socket-like object accepts nothing}: the calls '<call>@tx-full' "
     "(send, sendall, exec_command, global_request issued on a full direction: blocked in Packetizer.write_all holding the write lock) x every link loss, and the "
-    "case field tx=full (direction made full right before the loss trigger) for every call once in quick with the loss rotating over peer-close / link-eof / link-error / local-close; (quick: every applicable call x loss pair "
+    "case field tx=full (direction made full right before the loss trigger) for every call once in quick with the loss rotating over peer-close / link-eof / link-error / local-close "
+    "(link-error = the connection died with an error: with tx=full a stalled or later send() raises that error too, as on a kernel socket; "
+    "link-eof + tx=full = half-close by a peer that stopped reading: for start_client-banner, whose transport thread writes the banner before it ever reads, "
+    "only in call-first order - a write blocked towards a peer that has not hung up is not a lost connection); (quick: every applicable call x loss pair "
     "once in call-first order over the link, every client call over a real ProxyCommand child for 'child gone' (exit / SIGKILL alternating per call), "
     "'stdout EOF while the child lingers' and one loss that reaches the transport another way, plus "
     "drawn loss-first/together cases; thorough: full product x 3 moments x repetitions, sharded), errno / garbage flavour / "
@@ -320,6 +335,12 @@ def applicable(call, loss, moment, timeout, via, pre="none", tx="ok"):
     if (sp.tx_full or tx != "ok") and via != "link":
         return False
     if tx != "ok" and loss not in TX_FULL_LOSSES:
+        return False
+    if tx != "ok" and loss == "link-eof" and sp.kind == "start" and moment != "call-first":
+        # half-close by a peer that has stopped reading, then a transport thread whose FIRST action is a write (the
+        # banner): it legitimately blocks in send() towards a peer that is still there and never gets to read the
+        # EOF - not a lost connection (see module docstring, "tx"). In call-first order the banner is out and the
+        # thread sits in a read.
         return False
     if pre != "none":
         if not sp.chan:
@@ -774,6 +795,10 @@ class Env:
             self.rx.set_eof()
         elif loss == "link-error":
             en = ERRNOS[flavor % len(ERRNOS)]
+            if self.case.get("tx", "ok") == "full":
+                # a connection that died with an error is dead in both directions: a send() waiting on the full
+                # direction, and any later one, fails with the error (a kernel socket does not go on timing out)
+                self.tx.set_send_error(OSError(en, os.strerror(en)))
             self.rx.set_error(OSError(en, os.strerror(en)))
         elif loss == "local-close":
             self.tested.close()
